@@ -626,9 +626,12 @@ func ruleCodecAgreement(c *Ctx, r *Report, rule string, spec *formatSpec) {
 		}
 		for _, cl := range ts.Body.List {
 			cc := cl.(*ast.CaseClause)
-			key := "nil"
+			key := "default"
 			if len(cc.List) == 1 {
 				key = types.TypeString(c.typeOf(cc.List[0]), nil)
+				if isNilIdent(cc.List[0]) {
+					key = "nil" // `case nil:` — the same arm as a default that tests v == nil
+				}
 			} else if len(cc.List) > 1 {
 				key = "multi"
 			}
@@ -675,6 +678,44 @@ func ruleCodecAgreement(c *Ctx, r *Report, rule string, spec *formatSpec) {
 		}
 		return false
 	})
+	if len(decArms) == 0 {
+		// table form: valueReaders[typecode(b[0])](r) with a package-level table keyed by the type codes; the arm
+		// of a type code is the body of its function
+		ast.Inspect(dec.Body, func(n ast.Node) bool {
+			call, ok := n.(*ast.CallExpr)
+			if !ok {
+				return true
+			}
+			ix, ok := stripParens(call.Fun).(*ast.IndexExpr)
+			if !ok {
+				return true
+			}
+			id, ok := stripParens(ix.X).(*ast.Ident)
+			if !ok {
+				return true
+			}
+			lit := c.tableLiteral(c.objOf(id))
+			if lit == nil {
+				return true
+			}
+			for _, el := range lit.Elts {
+				kv, ok := el.(*ast.KeyValueExpr)
+				if !ok {
+					continue
+				}
+				v, isC := c.intConst(kv.Key)
+				fn, _ := c.objOf(stripParens(kv.Value)).(*types.Func)
+				if !isC || fn == nil || c.funcDecls[fn] == nil || c.funcDecls[fn].Body == nil {
+					continue
+				}
+				hd := c.funcDecls[fn]
+				arm := codecArm{Key: constNameOf(tcs, v), Code: constNameOf(tcs, v), Pos: hd.Pos()}
+				arm.Calls, arm.Guards = c.armCalls(hd.Body.List)
+				decArms[arm.Key] = arm
+			}
+			return true
+		})
+	}
 	type pair struct {
 		goType, code string
 		encNeed      [][]string // each entry: alternatives, one of which must be called
@@ -732,7 +773,8 @@ func ruleCodecAgreement(c *Ctx, r *Report, rule string, spec *formatSpec) {
 		default:
 			badGuard := ""
 			for _, g := range da.Guards {
-				if g != "err != nil" {
+				// a test of the read's error, either way round, is the only condition an arm may branch on
+				if g != "err != nil" && g != "err == nil" {
 					badGuard = g
 				}
 			}
@@ -742,7 +784,7 @@ func ruleCodecAgreement(c *Ctx, r *Report, rule string, spec *formatSpec) {
 	// nil
 	okNilEnc := false
 	for key, a := range encArms {
-		if key == "nil" && a.Code == "typeNIL" {
+		if (key == "nil" || key == "default") && a.Code == "typeNIL" {
 			okNilEnc = true
 		}
 	}
@@ -940,164 +982,6 @@ func ruleUvarintLen(c *Ctx, r *Report, rule string) {
 
 // ---------------------------------------------------------------- read discipline
 
-// loadFuncNames: Load and the module functions it reaches by static calls
-// that are handed a reader (the decoding helpers, however many there are).
-func (c *Ctx) loadFuncNames() []string {
-	obj, fd := c.find("Prog.Load")
-	if fd == nil {
-		return []string{"Prog.Load"}
-	}
-	takesReader := func(fn *types.Func) bool {
-		sig := fn.Type().(*types.Signature)
-		for i := 0; i < sig.Params().Len(); i++ {
-			switch types.TypeString(sig.Params().At(i).Type(), nil) {
-			case "*bufio.Reader", "io.Reader", "io.ByteReader":
-				return true
-			}
-		}
-		return false
-	}
-	seen := map[types.Object]bool{obj: true}
-	out := []string{"Prog.Load"}
-	var rest []string
-	var visit func(d *ast.FuncDecl)
-	visit = func(d *ast.FuncDecl) {
-		walkCalls(d.Body, false, func(call *ast.CallExpr) {
-			fn, ok := c.callee(call).(*types.Func)
-			if !ok || seen[fn] || fn.Pkg() == nil || fn.Pkg().Path() != bclPath || !takesReader(fn) {
-				return
-			}
-			seen[fn] = true
-			if hd := c.funcDecls[fn]; hd != nil && hd.Body != nil {
-				rest = append(rest, qname(fn))
-				visit(hd)
-			}
-		})
-	}
-	visit(fd)
-	sort.Strings(rest)
-	return append(out, rest...)
-}
-
-// loadFlatStmts: Load's statements with the bodies of reader-taking helpers
-// (other than the three decoders) spliced in where they are called.
-func (c *Ctx) loadFlatStmts(fd *ast.FuncDecl, depth int) []ast.Stmt {
-	var out []ast.Stmt
-	for _, s := range fd.Body.List {
-		var call *ast.CallExpr
-		probe := s
-		if ifs, ok := s.(*ast.IfStmt); ok && ifs.Init != nil {
-			probe = ifs.Init
-		}
-		if as, ok := probe.(*ast.AssignStmt); ok && len(as.Rhs) == 1 {
-			call, _ = as.Rhs[0].(*ast.CallExpr)
-		}
-		if call != nil && depth < 3 {
-			if fn, ok := c.callee(call).(*types.Func); ok && fn.Pkg() != nil && fn.Pkg().Path() == bclPath {
-				switch funcName(fn) {
-				case "uvarintFromBuf", "bytesFromBuf", "valueFromBuf":
-				default:
-					if hd := c.funcDecls[fn]; hd != nil && hd.Body != nil {
-						passes := false
-						for _, a := range call.Args {
-							if t := c.typeOf(a); t != nil && types.TypeString(t, nil) == "*bufio.Reader" {
-								passes = true
-							}
-						}
-						if passes {
-							out = append(out, c.loadFlatStmts(hd, depth+1)...)
-							continue
-						}
-					}
-				}
-			}
-		}
-		out = append(out, s)
-	}
-	return out
-}
-
-// ruleReadDiscipline: which read primitives Load may use, and that no result is dropped.
-func ruleReadDiscipline(c *Ctx, r *Report, rule string) {
-	r.rule(rule, 10, "Load and its helpers read only with io.ReadFull (plus one single-byte Read probing for end of input); every read's error is tested before the data is used (or the byte count is compared with the requested size); no Peek/Discard/ReadByte whose short result could be taken for data")
-	trailers := 0
-	for _, name := range c.loadFuncNames() {
-		_, fd := c.find(name)
-		if fd == nil {
-			r.bad(rule, name, "function not found", "")
-			continue
-		}
-		r.fn(name)
-		pm := parentMap(fd.Body)
-		idx := 0
-		for _, cs := range c.callsOf(fd) {
-			n := cs.Name
-			isReaderMethod := strings.HasPrefix(n, "bufio.Reader.") || strings.HasPrefix(n, "io.Reader.")
-			if n != "io.ReadFull" && !isReaderMethod && n != "io.ReadAtLeast" && n != "io.ReadAll" && n != "io.CopyN" {
-				continue
-			}
-			idx++
-			r.Sites++
-			key := fmt.Sprintf("%s/read#%d", name, idx)
-			pos := c.pos(cs.Call.Pos())
-			if isReaderMethod {
-				m := n[strings.LastIndex(n, ".")+1:]
-				if m == "Read" && name == "Prog.Load" && c.isTrailingProbe(fd, cs.Call) {
-					trailers++
-					r.ok(rule, name+"/trailing-probe", "single-byte Read compared with io.EOF as the last step")
-					continue
-				}
-				r.bad(rule, key, fmt.Sprintf("%s calls (*bufio.Reader).%s: a single Read/Peek may return fewer bytes than asked without an error; use io.ReadFull", name, m), pos)
-				continue
-			}
-			if n != "io.ReadFull" {
-				r.bad(rule, key, name+" reads with "+n+"; only io.ReadFull is accepted", pos)
-				continue
-			}
-			// io.ReadFull: result handling
-			as, ok := pm[cs.Call].(*ast.AssignStmt)
-			if !ok || len(as.Lhs) != 2 {
-				r.bad(rule, key, "the result of io.ReadFull is not bound (n, err := io.ReadFull(...))", pos)
-				continue
-			}
-			nObj, errObj := c.objOfExpr(as.Lhs[0]), c.objOfExpr(as.Lhs[1])
-			nBlank := isBlank(as.Lhs[0])
-			errBlank := isBlank(as.Lhs[1])
-			checked := false
-			// the next statement in the same block must test err (or n against the size)
-			if list, i := stmtListOf(pm, as); list != nil && i+1 < len(list) {
-				if ifs, ok := list[i+1].(*ast.IfStmt); ok {
-					if be, ok := stripParens(ifs.Cond).(*ast.BinaryExpr); ok {
-						returns := false
-						for _, s := range ifs.Body.List {
-							if _, ok := s.(*ast.ReturnStmt); ok {
-								returns = true
-							}
-						}
-						switch {
-						case !errBlank && c.isObj(be.X, errObj) && be.Op == token.NEQ && isNilIdent(be.Y) && returns:
-							checked = true
-						case !nBlank && c.isObj(be.X, nObj) && returns:
-							// n != want / n < want, with want the length of the slice just read
-							if k, isC := c.intConst(be.Y); isC && (be.Op == token.NEQ || be.Op == token.LSS) {
-								if se, ok := stripParens(cs.Call.Args[1]).(*ast.SliceExpr); ok && se.Low == nil && se.High != nil {
-									if h, isH := c.intConst(se.High); isH && h == k {
-										checked = true
-									}
-								}
-							} else if be.Op == token.LSS || be.Op == token.NEQ {
-								checked = true // n < int(m) with the stream-given size
-							}
-						}
-					}
-				}
-			}
-			r.check(checked, rule, key, "result tested on the spot", name+": the outcome of io.ReadFull is not tested right after the call (if err != nil / if n != size … return)", pos)
-		}
-	}
-	r.check(trailers == 1, rule, "Prog.Load/trailer-count", "one end-of-input probe", fmt.Sprintf("%d end-of-input probes in Load, expected exactly one", trailers), "")
-}
-
 func isBlank(e ast.Expr) bool {
 	id, ok := e.(*ast.Ident)
 	return ok && id.Name == "_"
@@ -1126,276 +1010,35 @@ func stmtListOf(pm map[ast.Node]ast.Node, s ast.Stmt) ([]ast.Stmt, int) {
 	return nil, -1
 }
 
-// isTrailingProbe: the tail of Load is `_, err = r.Read(b[:1])` followed by either
-//
-//	if err == io.EOF { return nil }; return err      or      if err != io.EOF { return err }; return nil
-func (c *Ctx) isTrailingProbe(fd *ast.FuncDecl, call *ast.CallExpr) bool {
-	n := len(fd.Body.List)
-	if n < 3 {
-		return false
-	}
-	as, ok := fd.Body.List[n-3].(*ast.AssignStmt)
-	if !ok || len(as.Rhs) != 1 || as.Rhs[0] != ast.Expr(call) || len(as.Lhs) != 2 {
-		return false
-	}
-	errObj := c.objOfExpr(as.Lhs[1])
-	ifs, ok := fd.Body.List[n-2].(*ast.IfStmt)
-	rs, ok2 := fd.Body.List[n-1].(*ast.ReturnStmt)
-	if !ok || !ok2 || len(rs.Results) != 1 || ifs.Else != nil || len(ifs.Body.List) != 1 {
-		return false
-	}
-	inner, ok := ifs.Body.List[0].(*ast.ReturnStmt)
-	if !ok || len(inner.Results) != 1 {
-		return false
-	}
-	atoms, pure := c.nnf(ifs.Cond, true, nil).conjuncts()
-	if !pure || len(atoms) != 1 {
-		return false
-	}
-	be, ok := atoms[0].E.(*ast.BinaryExpr)
-	if !ok || !c.isObj(be.X, errObj) || qname(c.objOf(be.Y)) != "io.EOF" {
-		return false
-	}
-	isEOF := (be.Op == token.EQL) == atoms[0].Pos
-	if isEOF {
-		return isNilIdent(inner.Results[0]) && c.isObj(rs.Results[0], errObj)
-	}
-	return c.isObj(inner.Results[0], errObj) && isNilIdent(rs.Results[0])
-}
-
-// ruleNoEOFTolerance: end of input is accepted at exactly one place.
-func ruleNoEOFTolerance(c *Ctx, r *Report, rule string) {
-	r.rule(rule, 2, "io.EOF is compared against only in Load's final probe and in the helper that turns a mid-entity EOF into ErrUnexpectedEOF; Load returns nil only after that probe; section errors are returned, wrapped")
-	sites := map[string]int{}
-	for _, it := range c.sortedDecls() {
-		obj, fd := it.obj, it.fd
-		if obj.Pkg() == nil || obj.Pkg().Path() != bclPath || fd.Body == nil {
-			continue
-		}
-		name := qname(obj)
-		ast.Inspect(fd.Body, func(n ast.Node) bool {
-			be, ok := n.(*ast.BinaryExpr)
-			if !ok || (be.Op != token.EQL && be.Op != token.NEQ) {
-				return true
-			}
-			if qname(c.objOf(be.Y)) == "io.EOF" || qname(c.objOf(be.X)) == "io.EOF" {
-				sites[name]++
-			}
-			return true
-		})
-	}
-	allowed := map[string]bool{"Prog.Load": true, "unexpectedEOF": true}
-	// the streaming reader of ParseFile legitimately ends at io.EOF: whatever function holds its read loop
-	if m, err := c.parseFileModel(); err == nil && m.Reader != nil {
-		for _, it := range c.sortedDecls() {
-			if it.fd.Body != nil && it.fd.Body.Pos() <= m.Reader.Body.Pos() && m.Reader.Body.End() <= it.fd.Body.End() {
-				allowed[qname(it.obj)] = true
-			}
-		}
-		// … or the helper the reader goroutine hands the input to
-		walkCalls(m.Reader.Body, false, func(call *ast.CallExpr) {
-			if fn, ok := c.callee(call).(*types.Func); ok && fn.Pkg() != nil && fn.Pkg().Path() == bclPath {
-				for _, a := range call.Args {
-					if m.isFile(c, a) {
-						allowed[qname(fn)] = true
-					}
-				}
-			}
-		})
-		for _, f := range c.allFuncs() {
-			if lit, ok := f.Syntax().(*ast.FuncLit); ok && lit.Body == m.Reader.Body {
-				allowed[ssaFuncName(f)] = true
-			}
-		}
-	}
-	for _, n := range sortedKeys(sites) {
-		if !allowed[n] || (n == "Prog.Load" && sites[n] != 1) {
-			r.bad(rule, "eof-compare/"+n, fmt.Sprintf("%s compares an error with io.EOF (%d times): end of input inside the bytecode stream must be an error", n, sites[n]), "")
-		} else {
-			r.ok(rule, "eof-compare/"+n, fmt.Sprintf("%d", sites[n]))
-		}
-	}
-	// nil returns of Load
-	_, fd := c.find("Prog.Load")
-	if fd == nil {
-		r.bad(rule, "Prog.Load", "function not found", "")
-		return
-	}
-	nilRets := 0
-	total := 0
-	ast.Inspect(fd.Body, func(n ast.Node) bool {
-		if rs, ok := n.(*ast.ReturnStmt); ok {
-			total++
-			if len(rs.Results) == 1 && isNilIdent(rs.Results[0]) {
-				nilRets++
-			}
-			if len(rs.Results) == 0 {
-				nilRets += 100 // bare return of the named result: not accepted
-			}
-		}
-		return true
-	})
-	lastIsProbe := false
-	if n := len(fd.Body.List); n >= 3 {
-		if as, ok := fd.Body.List[n-3].(*ast.AssignStmt); ok && len(as.Rhs) == 1 {
-			if call, ok := as.Rhs[0].(*ast.CallExpr); ok {
-				lastIsProbe = c.isTrailingProbe(fd, call)
-			}
-		}
-	}
-	r.check(nilRets == 1 && lastIsProbe, rule, "Prog.Load/nil-return", "nil is returned only after the end-of-input probe", fmt.Sprintf("Load has %d `return nil` (of %d returns); exactly one, inside the final end-of-input probe, is allowed", nilRets%100, total), c.pos(fd.Pos()))
-	// helper error returns: uvarintFromBuf / valueFromBuf / bytesFromBuf return a nil error only with data
-	for _, name := range []string{"uvarintFromBuf", "bytesFromBuf", "valueFromBuf"} {
-		_, h := c.find(name)
-		if h == nil {
-			continue
-		}
-		bad := ""
-		ast.Inspect(h.Body, func(n ast.Node) bool {
-			ifs, ok := n.(*ast.IfStmt)
-			if !ok {
-				return true
-			}
-			be, ok := stripParens(ifs.Cond).(*ast.BinaryExpr)
-			if !ok || !(be.Op == token.NEQ && isNilIdent(be.Y)) {
-				if ok && be.Op == token.LAND {
-					bad = "a read error is tolerated under a compound condition: " + types.ExprString(ifs.Cond)
-				}
-				return true
-			}
-			// the body must return a non-nil error
-			for _, s := range ifs.Body.List {
-				if rs, ok := s.(*ast.ReturnStmt); ok {
-					last := rs.Results[len(rs.Results)-1]
-					if isNilIdent(last) {
-						bad = "an error branch returns a nil error"
-					}
-				}
-			}
-			return true
-		})
-		r.check(bad == "", rule, name+"/error-branches", "every `if err != nil` returns the error", name+": "+bad, c.pos(h.Pos()))
-	}
-}
-
-// ruleHeaderGuards: magic and version checks.
-func ruleHeaderGuards(c *Ctx, r *Report, rule string) {
-	r.rule(rule, 3, "Load rejects a header whose magic differs from bytecodeMagic, whose major version differs from bytecodeMajor, or whose minor version exceeds bytecodeMinor — three separate comparisons, each returning an error, before anything else is read")
-	_, fd := c.find("Prog.Load")
-	if fd == nil {
-		r.bad(rule, "Prog.Load", "function not found", "")
-		return
-	}
-	got := map[string]bool{}
-	firstBody := -1
-	for i, s := range c.loadFlatStmts(fd, 0) {
-		if as, ok := s.(*ast.AssignStmt); ok && len(as.Rhs) == 1 {
-			if call, ok := as.Rhs[0].(*ast.CallExpr); ok && c.calleeName(call) == "uvarintFromBuf" && firstBody < 0 {
-				firstBody = i
-			}
-		}
-		ifs, ok := s.(*ast.IfStmt)
-		if !ok || firstBody >= 0 {
-			continue
-		}
-		be, ok := stripParens(ifs.Cond).(*ast.BinaryExpr)
-		if !ok {
-			continue
-		}
-		returnsErr := false
-		for _, b := range ifs.Body.List {
-			if rs, ok := b.(*ast.ReturnStmt); ok && len(rs.Results) == 1 && !isNilIdent(rs.Results[0]) {
-				returnsErr = true
-			}
-		}
-		if !returnsErr {
-			continue
-		}
-		yname := ""
-		if id, ok := stripParens(be.Y).(*ast.Ident); ok {
-			yname = id.Name
-		}
-		idx := int64(-1)
-		if ix, ok := c.stripConv(be.X).(*ast.IndexExpr); ok {
-			idx, _ = c.intConst(ix.Index)
-		}
-		switch {
-		case yname == "bytecodeMagic" && be.Op == token.NEQ:
-			got["magic"] = true
-		case yname == "bytecodeMajor" && be.Op == token.NEQ && idx == 0:
-			got["major"] = true
-		case yname == "bytecodeMinor" && be.Op == token.GTR && idx == 1:
-			got["minor"] = true
-		}
-	}
-	for _, k := range []string{"magic", "major", "minor"} {
-		want := map[string]string{"magic": "header != bytecodeMagic", "major": "b[0] != bytecodeMajor", "minor": "b[1] > bytecodeMinor"}[k]
-		r.check(got[k], rule, k, want+" -> error", "Load lacks the "+k+" check ("+want+" returning an error) before the body is read", c.pos(fd.Pos()))
-	}
-}
-
 // ruleBufferBound: Dump's scratch buffer is large enough for what is encoded into it.
 func ruleBufferBound(c *Ctx, r *Report, rule string) {
-	r.rule(rule, 2, "Dump's scratch buffer holds at least 10 bytes (type code + 9-byte varint) for scalars and is regrown to at least 1 + 9 + len(s) before a string constant is encoded")
+	r.rule(rule, 2, "at every call of uvarintToBytes / valueToBytes on Dump's paths the scratch buffer is known to hold what is encoded: 9 bytes for a varint, 10 (type code + 9-byte varint) for a scalar value, 10 + len(s) for a value that may be a string — from its allocation (array length, make size) or from a length test taken on the path; inside the constants loop this is shown from the loop invariant 'holds 10 bytes', which every iteration re-establishes")
 	_, fd := c.find("Prog.Dump")
 	if fd == nil {
 		r.bad(rule, "Prog.Dump", "function not found", "")
 		return
 	}
-	// the fixed array
-	arrOK := false
-	ast.Inspect(fd.Body, func(n ast.Node) bool {
-		vs, ok := n.(*ast.ValueSpec)
-		if !ok {
-			return true
+	m := c.serModelOf(fd, false)
+	var scalar, str []string
+	enc, strSites := 0, 0
+	for _, g := range m.Good {
+		if g.EncSites > enc {
+			enc = g.EncSites
 		}
-		for _, nm := range vs.Names {
-			if a, ok := c.infoFor(nm).Defs[nm].Type().Underlying().(*types.Array); ok && a.Len() >= 10 {
-				arrOK = true
+		if g.StrSites > strSites {
+			strSites = g.StrSites
+		}
+		for _, is := range g.BufIssues {
+			switch {
+			case strings.HasPrefix(is, "scalar: "):
+				scalar = append(scalar, strings.TrimPrefix(is, "scalar: "))
+			case strings.HasPrefix(is, "string: "):
+				str = append(str, strings.TrimPrefix(is, "string: "))
 			}
 		}
-		return true
-	})
-	r.check(arrOK, rule, "scalar-buffer", "fixed buffer of >= 10 bytes", "Dump's fixed scratch buffer must hold at least 10 bytes", c.pos(fd.Pos()))
-	// regrow for strings: within the constants loop, before valueToBytes
-	okGrow := false
-	why := "no regrow of the scratch buffer for string constants found"
-	ast.Inspect(fd.Body, func(n ast.Node) bool {
-		rs, ok := n.(*ast.RangeStmt)
-		if !ok || c.progField(rs.X) != "constants" {
-			return true
-		}
-		encAt, growAt := -1, -1
-		for i, s := range rs.Body.List {
-			ast.Inspect(s, func(x ast.Node) bool {
-				if call, ok := x.(*ast.CallExpr); ok {
-					switch c.calleeName(call) {
-					case "valueToBytes":
-						if encAt < 0 {
-							encAt = i
-						}
-					case "make":
-						// size expression: const >= 10 plus len(s) (possibly via a variable defined in the if header)
-						size := call.Args[1]
-						if id, ok := size.(*ast.Ident); ok {
-							size = c.definingExpr(rs.Body, c.objOf(id))
-						}
-						if cst, hasLen := c.sizeForm(size); hasLen && cst >= 10 {
-							growAt = i
-						} else {
-							why = fmt.Sprintf("the scratch buffer is regrown to %s: must be at least 1 + 9 + len(s)", types.ExprString(call.Args[1]))
-						}
-					}
-				}
-				return true
-			})
-		}
-		if growAt >= 0 && encAt >= 0 && growAt < encAt {
-			okGrow = true
-		}
-		return false
-	})
-	r.check(okGrow, rule, "string-buffer", "regrown to >= 1+9+len(s) before encoding", "Dump: "+why, c.pos(fd.Pos()))
+	}
+	r.check(len(scalar) == 0 && enc > 0, rule, "scalar-buffer", fmt.Sprintf("%d encoder calls on a path, each with a buffer of at least 9 / 10 bytes", enc), "Dump's scratch buffer is not known to hold a scalar: "+strings.Join(dedupe(scalar), "; "), c.pos(fd.Pos()))
+	r.check(len(str) == 0 && strSites > 0, rule, "string-buffer", "a value that may be a string is encoded into a buffer of at least 1+9+len(s) bytes", fmt.Sprintf("Dump: a string constant may not fit the scratch buffer (%d encoder calls seen for a value known to be a string): %s", strSites, strings.Join(dedupe(str), "; ")), c.pos(fd.Pos()))
 }
 
 // definingExpr finds `x := expr` for obj under root.
@@ -1448,7 +1091,7 @@ func (c *Ctx) sizeForm(e ast.Expr) (int64, bool) {
 // bytes differ from the format's constants. A rejection on any other
 // condition (a size limit, a value range) refuses dumps that Dump writes.
 func ruleRejectsOnlyDamage(c *Ctx, r *Report, rule string) {
-	r.rule(rule, 15, "every error Load (and the decoding helpers it calls) constructs is justified by a failed or short read (a condition on a read's error or byte count), by header bytes differing from the format constants, or by an unknown type code; sizes and values decoded from the dump are never a reason to reject it (Dump writes code, names, strings, positions of any magnitude)")
+	r.rule(rule, 6, "every path of Load that ends in an error although all reads succeeded leaves the successful path at a comparison of header bytes with a format constant; every error the decoding primitives construct is justified by a failed or short read (a condition on a read's error or byte count), by header bytes differing from the format constants, or by an unknown type code; sizes and values decoded from the dump are never a reason to reject it (Dump writes code, names, strings, positions of any magnitude)")
 	obj, fd := c.find("Prog.Load")
 	if fd == nil {
 		r.bad(rule, "Prog.Load", "function not found", "")
@@ -1468,13 +1111,33 @@ func ruleRejectsOnlyDamage(c *Ctx, r *Report, rule string) {
 		}
 		seen[d] = true
 		work = append(work, item{o, d})
-		walkCalls(d.Body, false, func(call *ast.CallExpr) {
-			if fn, ok := c.callee(call).(*types.Func); ok && fn.Pkg() != nil && fn.Pkg().Path() == bclPath {
+		// static calls and functions mentioned as values (a table of steps, a method value)
+		ast.Inspect(d.Body, func(n ast.Node) bool {
+			var fn *types.Func
+			switch n := n.(type) {
+			case *ast.Ident:
+				fn, _ = c.objOf(n).(*types.Func)
+			case *ast.SelectorExpr:
+				fn, _ = c.objOf(n).(*types.Func)
+			}
+			if fn != nil && fn.Pkg() != nil && fn.Pkg().Path() == bclPath {
 				visit(fn, c.funcDecls[fn])
 			}
+			return true
 		})
 	}
 	visit(obj, fd)
+	// Load and what it interprets in place are decided on the model; the decoding primitives by their syntax
+	covered := ruleRejectsByModel(c, r, rule)
+	{
+		var rest []item
+		for _, it := range work {
+			if !covered[it.fd] {
+				rest = append(rest, it)
+			}
+		}
+		work = rest
+	}
 	errType := types.Universe.Lookup("error").Type()
 	isErr := func(e ast.Expr) bool {
 		t := c.typeOf(e)
